@@ -211,6 +211,10 @@ class LockAnalysis:
                 if vid in fi.alias:
                     return fi.alias[vid]
                 if vid in fi.params:
+                    # `T*& out`: an out-parameter like `T** out` (assigning it hands a node to the caller)
+                    pty = next((p.get('type') or '' for p in f.params if p['id'] == vid), '')
+                    if pty.replace(' ', '').endswith('*&') and not pty.startswith('const '):
+                        return ('out', vid)
                     return ('param', vid)
             return ('var', vid)
         if k == 'CXXThisExpr':
@@ -439,6 +443,22 @@ class LockAnalysis:
                             dirty = frozenset(((lt if d[0] == rt else d[0]), d[1]) for d in dirty)
                         fresh = fresh - {rt}
                         return (held, dirty, fresh, assumed, released, needs)
+                    # p = q with q a local that names a held node and p a local that names none: from here on the node
+                    # goes by the name p (pointer copy; the analysis keeps one name per node)
+                    l0 = f.strip(c[0], casts=True)
+                    r0 = f.strip(c[1], casts=True)
+                    if l0 is not None and r0 is not None and l0['k'] == 'DeclRefExpr' and r0['k'] == 'DeclRefExpr' and \
+                            l0.get('dk') == 'var' and r0.get('dk') == 'var' and (l0.get('ty') or '').rstrip().endswith('*'):
+                        rt = la.tok(fi, c[1])
+                        held, dirty, fresh, assumed, released, needs = st
+                        heldt = {h[0] if isinstance(h, tuple) and h and isinstance(h[0], tuple) else h for h in held}
+                        if rt in held and lt not in held and rt[0] == 'var' and lt[0] in ('var', 'pr'):
+                            nlt = ('var', l0['id'])
+                            held = (held - {rt}) | {nlt}
+                            dirty = frozenset(((nlt if d[0] == rt else d[0]), d[1]) for d in dirty)
+                            if rt in fresh:
+                                fresh = (fresh - {rt}) | {nlt}
+                            return (held, dirty, fresh, assumed, released, needs)
                 return st
             cq = n.get('cq') or ''
             recv = call_recv(f, n)
